@@ -115,6 +115,14 @@ fn run_l1(c: &Case) -> (Result<Result<Built, vharness::libwallet::Error>, String
 			c.all,
 			&parent,
 		)?;
+		// (callers put the fee into the slate's fee field without a further check: init_send_tx's
+		// estimate unwraps the conversion)
+		if fee == 0 || fee > (1u64 << 40) - 1 {
+			return Err(vharness::libwallet::Error::GenericError(format!(
+				"ORACLE: select_coins_and_fee accepted a selection of {} inputs whose fee {} is outside the range of the slate's fee field",
+				coins.len(), fee
+			)));
+		}
 		let (_parts, changes) = selection::inputs_and_change::<_, _, _, ProofBuilder<ExtKeychain>>(
 			&coins,
 			&mut w,
